@@ -162,8 +162,10 @@ func (nr *NativeRunner) run(c *ReplayCase) (*nativeResult, error) {
 	if err := os.WriteFile(cf, b, 0o644); err != nil {
 		return nil, err
 	}
-	defer os.Remove(cf)
-	defer os.Remove(of)
+	if os.Getenv("VERIF_KEEP") == "" {
+		defer os.Remove(cf)
+		defer os.Remove(of)
+	}
 	ctx, cancel := context.WithTimeout(context.Background(), 60*time.Second)
 	defer cancel()
 	cmd := exec.CommandContext(ctx, nr.bin, "-test.run", "^TestVerifReplay$", "-test.count=1", "-test.timeout=50s")
